@@ -79,7 +79,13 @@ def t_timeout(ctx):
     evs = ctx.events
     # ---------------- clauses
     e = tr.entries('A', 'P1', 'hP')
-    ctx.check('C10.entered_once', len(e) == 1)
+    if T == 0 and not e:
+        # a zero time-out gives an async handler no time at all: it is cancelled before its first statement
+        res = [r for r in ctx.snap(evs['P1'])['results'] if r[0] == 'hP']
+        ctx.check('C10.timeout_error', len(res) == 1 and res[0][2] == 'error' and res[0][4] == 'TimeoutError', got=res)
+        ctx.witness('timeout fired')
+    else:
+        ctx.check('C10.entered_once', len(e) == 1)
     if len(e) == 1:
         h = e[0].h
         x = tr.exit_of(h)
@@ -107,7 +113,11 @@ def t_timeout(ctx):
     if ctx.cfg.get('sibling', True):
         s = tr.entries('A', 'P1', 'hP2')
         sres = [r for r in ctx.snap(evs['P1'])['results'] if r[0] == 'hP2']
-        ctx.check('C10.siblings_run', len(s) == 1 and len(sres) == 1 and sres[0][2] == 'completed', entries=len(s), got=sres)
+        if T == 0:
+            # with a zero time-out the (async) sibling is given no time either: it must end as a TimeoutError error, not stay pending
+            ctx.check('C10.siblings_run', len(sres) == 1 and sres[0][2] in ('completed', 'error'), entries=len(s), got=sres)
+        else:
+            ctx.check('C10.siblings_run', len(s) == 1 and len(sres) == 1 and sres[0][2] == 'completed', entries=len(s), got=sres)
     sp = ctx.snap(evs['P1'])
     ctx.check('C10.event_completes', sp['status'] == 'completed' and sp['signal'] is True, got=(sp['status'], sp['signal']))
     # children of the timed-out handler (by the harness's own dispatch records)
@@ -139,7 +149,10 @@ def jobs(tier):
         out.append(Job('C10', 's1.timeout', t_timeout, dict(T='1/4', depth=2, child='await'), witnesses=W + ('timeout while awaiting child', 'timeout before dispatch', 'timeout after child')))
         out.append(Job('C10', 's1.timeout', t_timeout, dict(T='1/4', depth=2, child='ff'), witnesses=W))
         out.append(Job('C10', 's1.timeout', t_timeout, dict(T='1/4', depth=2, child='none', sibling=False), witnesses=W))
+        out.append(Job('C10', 's1.timeout', t_timeout, dict(T='0', depth=2, child='await'), witnesses=('timeout fired',)))
     else:
+        out.append(Job('C10', 's1.timeout', t_timeout, dict(T='0', depth=2, child='await'), witnesses=('timeout fired',)))
+        out.append(Job('C10', 's1.timeout', t_timeout, dict(T='0', depth=2, child='none', sibling=False), witnesses=('timeout fired',)))
         for T in ('1/4', '3/20', '1'):
             for child in ('await', 'ff', 'none'):
                 out.append(Job('C10', 's1.timeout', t_timeout, dict(T=T, depth=2, child=child), witnesses=W))
